@@ -722,3 +722,16 @@ package mapping
 //@   prop C05
 //@   opaque TrimSpace
 //@   ensures [tagged-iff-colon] result1 == (ret(strings.Index) >= 0) && arg(strings.Index, 1) == ":"
+
+// structValueRequired: "must this nested struct be given" depends on the tag key being unmarshalled (json, form, path,
+// header: the members' options are read from that tag) as well as on the type, so the cached verdict is stored and
+// found under BOTH - a verdict computed for one key is never the answer for another (httpx.Parse runs four
+// unmarshalers with different keys over one request struct).
+//@ func structValueRequired
+//@   prop C05
+//@   replay mapping_required_cache_key
+//@   opaque implicitValueRequiredStruct
+//@   let key = structkey(requiredCacheKey, tag, tp)
+//@   ensures [cached-verdict-is-for-this-tag-and-type] calls(implicitValueRequiredStruct) == 0 ==> old(has(structRequiredCache, key)) && result0 == old(structRequiredCache[key].required) && result1 == old(structRequiredCache[key].err)
+//@   ensures [computed-only-when-not-cached] calls(implicitValueRequiredStruct) >= 1 ==> !old(has(structRequiredCache, key)) && calls(implicitValueRequiredStruct) == 1 && arg(implicitValueRequiredStruct, 0) == tag && arg(implicitValueRequiredStruct, 1) == tp
+//@   ensures [computed-verdict-returned-and-stored-under-tag-and-type] calls(implicitValueRequiredStruct) == 1 ==> result0 == ret(implicitValueRequiredStruct, 0) && result1 == ret(implicitValueRequiredStruct, 1) && has(structRequiredCache, key) && structRequiredCache[key].required == result0
